@@ -110,6 +110,8 @@ class CallMixin:
                 a = self.res(self.ev(node.args[0]))
                 b = self.res(self.ev(node.args[1]))
                 return VInt(models.str2int(a.t, b.t))
+            if nm == 'calls':
+                return VPtr(0)
             if nm == 'same_except':
                 return self.spec_same_except(node)
             if nm == 'fresh':
@@ -283,6 +285,8 @@ class CallMixin:
         if c.trusted:
             self.used_assumptions.add(f'assumed-contract:{c.key}')
         site = self.site(node, 'pre')
+        for i, req in enumerate(c.caller_requires):
+            self.check_spec(req, f'{site}::{fi.qualname}#caller-req{i+1}', 'pre@call')
         fr = Frame(fi, env, fi.module, c, len(self.frames))
         self.frames.append(fr)
         try:
@@ -299,6 +303,9 @@ class CallMixin:
             else:
                 k = 0
             for loc in c.modifies:
+                if loc == '$calls':
+                    self.havoc_cell(VPtr(0), node)
+                    continue
                 locnode = self.parse_spec(loc)
                 if isinstance(locnode, ast.Attribute):
                     base = self.res(self.eval_spec(locnode.value))
@@ -587,6 +594,8 @@ class CallMixin:
 
     def run_path(self, fi, contract, prefix):
         st = self.st = State(prefix)
+        # ghost: the sequence of opaque callables invoked so far lives in heap cell 0
+        st.heap[0] = ListCell(z3.Const('calls!0', z3.SeqSort(RefSort)), 'ref')
         self.frames = []
         self._wl_stack = []
         self.spec_mode = 0
